@@ -84,13 +84,20 @@ def gen_workload(rng, big=False, devel=False, same_prefix=False, extended=True, 
         files[0]['v1'] = files[0]['v2']
     if not any(f['v2'] for f in files):
         files[0]['v2'] = files[0]['v1']
+    if extended:
+        # an executable may be linked as a PIE in one package and as a plain executable in the other (hardening flags change)
+        for f in files:
+            if fam_of(f['path']) in EXES and rng.chance(1, 2):
+                side = rng.choice(['v1', 'v2'])
+                if f[side]:
+                    f[side] += '_exec'
     nodbg = extended and rng.chance(1, 3)
     if nodbg:
         # some binaries are shipped without debug info (symbol-only comparison; an error with --fail-no-dbg)
         for f in files:
             if rng.chance(1, 3):
                 side = rng.choice(['v1', 'v2', 'v2'])
-                if f[side]:
+                if f[side] and not f[side].endswith('_exec'):
                     f[side] = f[side] + '_nodbg'
     dirlink = None
     if extended and layout != 'flat' and rng.chance(1, 4):
